@@ -246,7 +246,8 @@ func c14EOF(e *Env) {
 		// suffix "+early": flag set before the trailer was known to be consumed
 		rl := &esp.Rule{
 			Name: rule, Init: "",
-			Track: func(key string) bool { return key == "err == nil" },
+			Track:  func(key string) bool { return key == "err == nil" },
+			Inline: inlineWhen(info, isTrailerCall, setsTrue),
 			Call: func(c *esp.Ctx, call *ast.CallExpr, f *types.Func) {
 				if isTrailerCall(f) {
 					early := strings.HasSuffix(c.S.TS, "+early")
@@ -489,4 +490,94 @@ func c16Probe(e *Env) {
 		})
 	}
 	r.Floor(rule, n, 3, "Sprintf-built existence probes in cmd/hz/generator")
+}
+
+// C20.sorted — every expression tree that is not reachable from the top-level root through
+// operand links gets its own priority sort.
+func c20Sorted(e *Env) {
+	const rule = "C20.sorted"
+	w, r := e.W, e.R
+	r.Explainf("C20.sorted: the parser builds trees left to right and re-associates them afterwards with sortPriority, which follows Left/RightOperand links only. Every group root that a function creates with newGroupExprNode() and fills with parseExprNode must therefore, in that function, either be handed to sortPriority after the parse or be attached with SetLeftOperand/SetRightOperand (so that the caller's pass reaches it). Roots kept in side lists (function arguments, selector sub-expressions) that skip the sort evaluate `1 + $ * 2` as `(1 + $) * 2`.")
+	p := w.Pkg(relTagexpr)
+	if p == nil {
+		r.Anchor(rule, "package internal/tagexpr")
+		return
+	}
+	info := p.TypesInfo
+	parse := w.Func(relTagexpr, "Expr", "parseExprNode")
+	sortF := w.Func(relTagexpr, "", "sortPriority")
+	newGrp := w.Func(relTagexpr, "", "newGroupExprNode")
+	if parse == nil || sortF == nil || newGrp == nil {
+		r.Anchor(rule, "tagexpr.(*Expr).parseExprNode / sortPriority / newGroupExprNode")
+		return
+	}
+	n := 0
+	for _, fi := range declaredNonTest(w) {
+		if fi.Pkg != p || fi.Decl.Body == nil || fi.Obj == parse.Obj {
+			continue
+		}
+		fname := w.FuncName(fi.Obj)
+		// locals holding a fresh group root
+		roots := map[types.Object]bool{}
+		ast.Inspect(fi.Decl.Body, func(nd ast.Node) bool {
+			if as, ok := nd.(*ast.AssignStmt); ok && len(as.Lhs) == 1 && len(as.Rhs) == 1 {
+				if c, ok := unparen(as.Rhs[0]).(*ast.CallExpr); ok && calleeOf(info, c) == newGrp.Obj {
+					if id, ok := as.Lhs[0].(*ast.Ident); ok {
+						roots[info.ObjectOf(id)] = true
+					}
+				}
+			}
+			return true
+		})
+		if len(roots) == 0 {
+			continue
+		}
+		ord := 0
+		seen := map[types.Object]bool{}
+		ast.Inspect(fi.Decl.Body, func(nd ast.Node) bool {
+			c, ok := nd.(*ast.CallExpr)
+			if !ok || calleeOf(info, c) != parse.Obj || len(c.Args) != 2 {
+				return true
+			}
+			id, ok := unparen(c.Args[1]).(*ast.Ident)
+			if !ok || !roots[info.ObjectOf(id)] {
+				return true
+			}
+			root := info.ObjectOf(id)
+			if seen[root] {
+				return true // several parse calls fill the same root (alternative branches): one obligation
+			}
+			seen[root] = true
+			ord++
+			n++
+			key := fmt.Sprintf("%s:root#%d:sorted-or-linked", fname, ord)
+			how := ""
+			ast.Inspect(fi.Decl.Body, func(m ast.Node) bool {
+				c2, ok := m.(*ast.CallExpr)
+				if !ok || c2.Pos() < c.End() {
+					return true
+				}
+				for _, a := range c2.Args {
+					if aid, ok := unparen(a).(*ast.Ident); ok && info.ObjectOf(aid) == root {
+						f := calleeOf(info, c2)
+						switch {
+						case f == sortF.Obj:
+							how = "sortPriority"
+						case f != nil && (f.Name() == "SetLeftOperand" || f.Name() == "SetRightOperand") && how == "":
+							how = f.Name()
+						}
+					}
+				}
+				return true
+			})
+			if how != "" {
+				r.OKd(rule, key, w.Pos(c.Pos()), "a locally parsed expression tree is priority-sorted or linked as an operand", how)
+			} else {
+				r.Fail(rule, key, w.Pos(c.Pos()), "a locally parsed expression tree is priority-sorted or linked as an operand",
+					"the tree parsed into `"+id.Name+"` is neither passed to sortPriority nor attached as an operand: it stays left-associated and ignores operator priority when evaluated")
+			}
+			return true
+		})
+	}
+	r.Floor(rule, n, 5, "locally created expression roots filled by parseExprNode")
 }
